@@ -349,7 +349,13 @@ func (e *Exec) pick(t *Term) int64 {
 	var vals []int64
 	var excl []*Term
 	if t.isConstTree() {
-		// guarded value set: candidates are the leaves
+		// guarded value set: often the path condition already pins it
+		if k := e.narrow(t); k.IsConst() {
+			s.script = append(s.script[:s.pos], k.SVal())
+			s.pos++
+			return k.SVal()
+		}
+		// otherwise the candidates are the leaves
 		for _, v := range e.ctx.LeafValues(t) {
 			eq := e.ctx.Eq(t, e.ctx.BV(v, t.W))
 			mt, _ := e.modelSays(eq)
